@@ -259,3 +259,24 @@ func truncArray(pf *PField, s string, n int) string {
 	}
 	return s
 }
+
+// growSlice appends 600-3000 messages of one slice-hosted kind to a model File
+// (containers, buffers and counters that were sized for "a few" messages).
+func growSlice(r *Rng, mf *ModelFile, o MFOpts) {
+	hs := hostsOf(mf.Type)
+	var kinds []uint16
+	for mn, h := range hs {
+		if h.Slice && len(prof.byMesg[mn]) > 0 {
+			kinds = append(kinds, mn)
+		}
+	}
+	if len(kinds) == 0 {
+		return
+	}
+	sortU16(kinds)
+	g := kinds[r.Intn(len(kinds))]
+	n := r.Range(600, 3000)
+	for i := 0; i < n; i++ {
+		mf.Msgs = append(mf.Msgs, MMsg{Global: g, Fields: genMsgFields(r, g, o)})
+	}
+}
